@@ -100,11 +100,13 @@ def run(ctx) -> None:
         rep.check("C05.R2", len(calls) == 1 and not enclosing_loops(starter, calls[0][1]) if calls else False, starter, calls[0][1] if calls else starter.node, f"{ph}() is called at exactly one site, outside any loop (exactly once per component)", f"{ph}() is called at {len(calls)} sites / inside a loop")
         rep.check("C05.R2", len(sf.phase_awaits[ph]) == len(calls) and bool(calls), starter, calls[0][1] if calls else starter.node, f"the coroutine returned by {ph}() is awaited once", f"{ph}() is not awaited exactly once")
         for cn, call in calls:
-            cts = controlling_tests(cfg, cn)
-            for t, lab in cts:
-                txt = ast.unparse(t.ast)
-                ok = lab == "t" and isinstance(t.ast, ast.Compare) and isinstance(t.ast.ops[0], ast.IsNot) and txt.count(f".{ph}") == 2
-                rep.check("C05.R2", ok, starter, t.ast, f"{ph}() is skipped only when the component does not override it", f"{ph}() is additionally guarded by `{txt}`: some components' {ph}() never runs")
+            from .discharge import controlling_conditions
+
+            for e_, truth, t in controlling_conditions(cfg, cn):
+                txt = ast.unparse(e_)
+                # normalised: `X.prepare is Component.prepare` must be FALSE for the call to run
+                ok = (not truth) and isinstance(e_, ast.Compare) and isinstance(e_.ops[0], ast.Is) and txt.count(f".{ph}") == 2
+                rep.check("C05.R2", ok, starter, t.ast, f"{ph}() is skipped only when the component does not override it", f"{ph}() is additionally guarded by `{ast.unparse(t.ast)}`: some components' {ph}() never runs")
     if not sf.tg_enter or not sf.tg_exit:
         rep.violate("C05.R3", starter, starter.node, "children are not started inside an `async with create_task_group()` block of the starter")
     elif sf.phase_awaits["prepare"] and sf.phase_calls["start"]:
@@ -155,12 +157,11 @@ def run(ctx) -> None:
     rep.floor("C05.R2", len(sf.phase_calls["prepare"]) + len(sf.phase_calls["start"]), 2)
     # the children block is guarded only by "has children"
     if sf.tg_enter:
-        for t, lab in controlling_tests(cfg, sf.tg_enter[0]):
-            e, want = t.ast, "t"
-            while isinstance(e, ast.UnaryOp) and isinstance(e.op, ast.Not):
-                e, want = e.operand, ("f" if want == "t" else "t")
+        from .discharge import controlling_conditions
+
+        for e, truth, t in controlling_conditions(cfg, sf.tg_enter[0]):
             e = sf.rd.resolve(t.id, e)
-            ok = lab == want and isinstance(e, ast.Attribute) and e.attr == an.children_attr and dotted(e.value) == starter.params[0]
+            ok = truth and isinstance(e, ast.Attribute) and e.attr == an.children_attr and dotted(e.value) == starter.params[0]
             rep.check("C05.R3", ok, starter, t.ast, "the child block is skipped only when there are no children", f"the child block is additionally guarded by `{ast.unparse(t.ast)}`")
 
     # ------------------------------------------------------------------ R4 return after root start
